@@ -10,7 +10,7 @@ type JValue = serde_json::Value;
 const PROPOSALS: &[(&str, F)] = &[
     ("mutable-global", F::MUTABLE_GLOBAL), ("saturating-float-to-int", F::SATURATING_FLOAT_TO_INT), ("sign-extension", F::SIGN_EXTENSION),
     ("multi-value", F::MULTI_VALUE), ("reference-types", F::REFERENCE_TYPES), ("bulk-memory", F::BULK_MEMORY), ("simd", F::SIMD),
-    ("multi-memory", F::MULTI_MEMORY), ("memory64", F::MEMORY64), ("threads", F::THREADS),
+    ("multi-memory", F::MULTI_MEMORY), ("memory64", F::MEMORY64), ("threads", F::THREADS), ("relaxed-simd", F::RELAXED_SIMD), ("tail-call", F::TAIL_CALL),
 ];
 
 fn all() -> F { let mut f = F::empty(); f.insert(F::FLOATS); for (_, p) in PROPOSALS { f.insert(*p); } f }
@@ -121,6 +121,29 @@ pub fn features(args: &[String]) -> Result<JValue> {
             if !wide.is_empty() { fail(format!("multi-byte reserved immediates: {:?}", wide)); }
         }
     }
+    // operator by operator: a module that uses ONE operator (every operator walrus accepts, several immediates each) needs no proposal
+    // after the round trip that it did not need before -- an operator must come back as itself, not as a sibling from a later proposal
+    let mut op_modules = 0;
+    if args.is_empty() {
+        for (name, _proposal, instrs) in crate::gen_ops::samples() {
+            for i in instrs {
+                let operands = match crate::ops::find_operands(&i) { Some(o) => o, None => continue };
+                let wasm = crate::ops::skeleton(&operands, &i);
+                if !ok(&wasm, all()) { continue; }
+                op_modules += 1;
+                let w2 = wasm.clone();
+                let out = match std::panic::catch_unwind(move || crate::ops::roundtrip(&w2)) { Ok(Ok(o)) => o, _ => { failures.push(json!({"operator": name, "what": "round trip failed or panicked", "input_wasm_hex": crate::ops::hex(&wasm)})); continue } };
+                for (pn, p) in PROPOSALS {
+                    checked += 1;
+                    let mut f = all(); f.remove(*p);
+                    if ok(&wasm, f) && !ok(&out, f) {
+                        failures.push(json!({"operator": name, "instruction": format!("{:?}", i), "input_wasm_hex": crate::ops::hex(&wasm),
+                            "what": format!("a module using this operator validates without {pn}, its round trip does not: {}", Validator::new_with_features(f).validate_all(&out).err().map(|e| e.to_string()).unwrap_or_default())}));
+                    }
+                }
+            }
+        }
+    }
     failures.truncate(10);
-    Ok(json!({"violated": !failures.is_empty(), "feature_checks": checked, "failures": failures}))
+    Ok(json!({"violated": !failures.is_empty(), "feature_checks": checked, "single_operator_modules": op_modules, "failures": failures}))
 }
